@@ -297,6 +297,29 @@ func runC08(t *testing.T, planAny any, res *simnet.Result) {
 			}
 		}
 		c.Close()
+		// sessions are isolated also when they overlap inside one another's commands: while one session's release is
+		// removing a unit's files, other sessions ask for the full list and for that unit
+		if len(units) > 0 && len(res.Violations) == 0 {
+			u := units[int(simnet.H(res.Seed, "overlap-unit")%uint64(len(units)))]
+			var answers []string
+			var amu sync.Mutex
+			ctl.InjectOnce("release.rm", "/"+u, func(string) {
+				for _, q := range []string{"work list", "work status " + u} {
+					r := node.DirectCmd(q)
+					amu.Lock()
+					answers = append(answers, r)
+					amu.Unlock()
+				}
+			})
+			rc := node.Session("unix")
+			_, _ = rc.Hello()
+			if reply, err := rc.Cmd("work release "+u, 30*time.Second); err != nil {
+				res.Violate("c08:no-answer|release-overlap", "work release %s got no answer in 30 s while other sessions were listing units (%q, %v)", u, trunc(reply), err)
+			}
+			rc.Close()
+			res.Add("probe_overlapping_sessions", 1)
+			probe("overlapping release and list")
+		}
 		res.SimSeconds = w.Now().Seconds()
 		res.LogHash, res.LogLines = w.CanonicalLogHash()
 		res.Merge(w.Stats())
